@@ -56,7 +56,7 @@ STUBBED = ["threading.Thread/Lock/Event, queue.Queue (simkit.cthreads, "
 EXPECT_PROBES = ["w6", "w1", "w2", "w3", "w4", "w5", "hub_inline", "hub_threaded",
                  "policy_random", "policy_pct", "switch_in_recoco",
                  "real_pinger", "loop_on_application_thread",
-                 "w2_low_priority_tasks"]
+                 "w2_low_priority_tasks", "scheduler_is_not_the_default"]
 
 
 def gen_plan(seed, tier):
@@ -111,6 +111,7 @@ def gen_plan(seed, tier):
       # two parked tasks, both below normal priority
       cfg["w2_low"] = [r.pick([0.25, 0.5, 0.75]) for _ in range(2)]
   elif w == "w3":
+    cfg["w3_nondefault"] = Rng(mix(seed, "w3nd")).chance(0.3)
     for i in range(r.randint(1, 3)):
       steps.append({"thread": i, "sections": r.randint(1, 2),
                     "nested": r.chance(0.4), "inner": r.randint(0, 3),
@@ -212,7 +213,7 @@ def _finish_check(sim, world, eng, fin, what):
                     "empty: the real pipe read would block the scheduler")
 
 
-def _idle_tasks(world, n):
+def _idle_tasks(world, n, sched=None):
   R = world.R
 
   class Idle(R.Task):
@@ -221,7 +222,7 @@ def _idle_tasks(world, n):
         yield 0
         yield R.Sleep(0.5)
   for _ in range(n):
-    Idle().start()
+    Idle().start(sched)
 
 
 def _controller(sim, world, eng, done_pred, timeout=30.0):
@@ -623,10 +624,19 @@ def _w3(sim, world, eng, plan):
         yield 0
   tasks = [Coop("c%d" % i, cfg.get("coop_steps", 3))
            for i in range(cfg.get("coop_tasks", 1))]
+  if cfg.get("w3_nondefault"):
+    # the process has another scheduler, and that one is recoco's default:
+    # everything here names the scheduler it means
+    other = R.Scheduler(isDefaultScheduler=True, startInThread=False,
+                        threaded_selecthub=False)
+    other._selectHub._select_func = eng.select
+    other.runThreaded()
+    world.extra_scheds = [other]
+    sim.probes["scheduler_is_not_the_default"] += 1
   for t in tasks:
-    t.start()
+    t.start(sched)
   world.start_scheduler()
-  _idle_tasks(world, cfg.get("idle_tasks", 0))
+  _idle_tasks(world, cfg.get("idle_tasks", 0), sched)
   for st in plan["steps"]:
     if "thread" not in st:
       continue
